@@ -124,6 +124,8 @@ def compare(r, m, with_doc=True, **kw):
     """None if the real outcome r and the model outcome m agree"""
     if m is None:
         return None
+    if m["r"] == "raise" and m.get("site") == "foreign-key":
+        return None      # a mapping key that is hashable but neither str nor int arose on the way (the model's keys are str / int): outside the model
     if r["r"] == "raise" and r.get("exn") == "RecursionError" and m["r"] == "fuel":
         return None      # both diverge: defaults under an allow_unknown rule set that re-create unknown mappings, without end
     if r["r"] == "raise" or m["r"] != "ok":
